@@ -254,7 +254,7 @@ pub extern "C" fn tsrun_step_result_free(result: *mut TsRunStepResult) {
 // Helper Functions
 // ============================================================================
 
-fn convert_step_result(_ctx: &mut TsRunContext, result: StepResult) -> TsRunStepResult {
+fn convert_step_result(ctx: &mut TsRunContext, result: StepResult) -> TsRunStepResult {
     match result {
         StepResult::Continue => TsRunStepResult {
             status: TsRunStepStatus::Continue,
@@ -273,6 +273,27 @@ fn convert_step_result(_ctx: &mut TsRunContext, result: StepResult) -> TsRunStep
         },
 
         StepResult::NeedImports(imports) => {
+            // A specifier or path with an interior NUL byte has no C string form: the host could
+            // neither read nor answer the request, so it is reported as an error instead of
+            // handing out NULL pointers
+            if imports.iter().any(|req| {
+                req.specifier.contains('\0')
+                    || req.resolved_path.as_str().contains('\0')
+                    || req
+                        .importer
+                        .as_ref()
+                        .is_some_and(|p| p.as_str().contains('\0'))
+            }) {
+                return TsRunStepResult {
+                    status: TsRunStepStatus::Error,
+                    error: ctx.set_error(
+                        "Module specifier contains a NUL byte and cannot be reported through the C API"
+                            .to_string(),
+                    ),
+                    ..Default::default()
+                };
+            }
+
             // Use into_boxed_slice to ensure capacity == length for correct deallocation
             let c_imports: Vec<TsRunImportRequest> = imports
                 .iter()
